@@ -86,16 +86,36 @@ class RecordingWormhole:
         return d
 
 
+def reported(stderr_text, failure):
+    """the outcome as the command-line front end reported it to the user (cli._dispatch_command): exit status and message class"""
+    if not isinstance(failure, Failure):
+        return "ok" if "ERROR" not in stderr_text and "TransferError" not in stderr_text else "other:quiet-exit-with-error-text"
+    if not isinstance(failure.value, SystemExit) or failure.value.code != 1:
+        return "other:%s" % type(failure.value).__name__
+    if "Traceback" in stderr_text:
+        return "other:traceback"
+    if "ERROR: Key confirmation failed" in " ".join(stderr_text.split()):
+        return "WrongPasswordError"
+    if "TransferError: " in stderr_text:
+        return "TransferError"
+    return "other:exit1"
+
+
 class NotingDict(dict):
-    def __init__(self, note):
+    def __init__(self, note, world=None):
         dict.__init__(self)
         self._note = note
+        self._world = world
 
     def __setitem__(self, k, v):
         dict.__setitem__(self, k, v)
         o = "ok"
         if isinstance(v, Failure):
             o = type(v.value).__name__
+        w = self._world
+        if w is not None and w.dispatch:
+            c = w.send_cfg if k == "send" else w.recv_cfg
+            o = reported(c.stderr.getvalue(), v)
         self._note(("Done", "S" if k == "send" else "R", o))
 
 
@@ -163,8 +183,11 @@ def run_config(tid, cfg, seed):
     sys.stderr = io.StringIO()          # ("transfer rejected" goes to the process's stderr, not to the command's)
     try:
         w = X.XferWorld(base)
-        w.results = NotingDict(note)
+        w.results = NotingDict(note, w)
         w.mb_rng = random.Random(seed)
+        # every other run goes through the front end's error interpreter: the outcome recorded is then what the *user* was told
+        # (exit status, "ERROR: Key confirmation failed ...", "TransferError: ..."), and must be the outcome the model predicts
+        w.dispatch = bool((seed // 2) % 2)
         name = "payload.bin" if cfg["mode"] == "file" else "tree"
         if cfg["mode"] == "file":
             with open(os.path.join(sdir, name), "wb") as f:
@@ -217,7 +240,8 @@ def run_config(tid, cfg, seed):
         internal = ["%s: %s" % (type(e).__name__, str(e)[:80]) for _, e in w.internal]
         printed = w.recv_cfg.stdout.getvalue()
         w.shutdown()
-        return lines, {"finished": bool(finished), "internal": internal, "printed": printed, "events": [list(e) for e in events]}
+        return lines, {"finished": bool(finished), "internal": internal, "printed": printed, "events": [list(e) for e in events],
+                       "front_end": bool(w.dispatch)}
     finally:
         sys.stderr = orig_err
         cmd_send.create, cmd_receive.create, builtins.input = orig
@@ -323,6 +347,7 @@ def run_family(wd, quick, seed):
                 k = "%s:%s" % (ev[1], ev[2])
                 e["told"][k] = e["told"].get(k, 0) + 1
     cov["code_flows"] = flows
+    cov["runs_through_cli_dispatch_command"] = sum(1 for n in notes.values() if n.get("front_end"))
     cov.update(runs=len(traces), accepted=accepted, rejected=rejected, not_finished_or_internal=unfinished[:6], errors=errors[:4],
                text_sender_ok_implies_printed=all((["Done", "S", "ok"] not in n["events"]) or ("hello there" in n["printed"])
                                                   for n in notes.values() if n["cfg"]["mode"] == "text") and text_ok,
